@@ -372,4 +372,488 @@ theorem nafLoop_spec (W k a alen : Nat) (hW : k + 2 < W) (halen : a < 2 ^ alen) 
             · exact h0
           omega
 
+
+/-! ### wwNAF: the code word -/
+
+theorem xor_hi {j mag : Nat} (hm : mag < 2 ^ j) : mag ^^^ 2 ^ j = mag + 2 ^ j := by
+  have h := Nat.two_pow_add_eq_or_of_lt hm 1
+  rw [Nat.mul_one] at h
+  rw [Nat.add_comm, h]
+  apply Nat.eq_of_testBit_eq
+  intro i
+  rw [Nat.testBit_xor, Nat.testBit_or, Nat.testBit_two_pow]
+  by_cases hj : j = i
+  · subst hj; simp [Nat.testBit_lt_two_pow hm]
+  · simp [hj]
+
+/-- decoding of one non-zero symbol (w bits, sign ‖ magnitude) -/
+def nafSym (w sym : Nat) : Int :=
+  if sym / 2 ^ (w - 1) = 1 then -((sym % 2 ^ (w - 1) : Nat) : Int) else (sym : Int)
+
+/-- the code of a non-zero digit: w bits, odd, decodes to the digit -/
+theorem nafDigit_code (W k alen i window : Nat) (hW : k + 2 < W) (hwin : window ≤ 2 ^ (k + 2))
+    (hodd : window % 2 = 1) :
+    (wwNAFDigit W (k + 2) alen i window).2.1 < 2 ^ (k + 2)
+    ∧ (wwNAFDigit W (k + 2) alen i window).2.1 % 2 = 1
+    ∧ nafSym (k + 2) (wwNAFDigit W (k + 2) alen i window).2.1 = (wwNAFDigit W (k + 2) alen i window).1
+    ∧ (wwNAFDigit W (k + 2) alen i window).1 % 2 = 1 := by
+  have hpow : 2 ^ (k + 2) = 2 * 2 ^ (k + 1) := by rw [Nat.pow_succ, Nat.mul_comm]
+  have hpow1 : 2 ^ (k + 1) = 2 * 2 ^ k := by rw [Nat.pow_succ, Nat.mul_comm]
+  have hhalf : 2 ^ (k + 2) / 2 = 2 ^ (k + 1) := by omega
+  have hH : 0 < 2 ^ k := Nat.two_pow_pos k
+  have hk1 : k + 2 - 1 = k + 1 := by omega
+  unfold wwNAFDigit nafSym
+  simp only [hhalf, hk1]
+  rw [if_pos hodd]
+  have hlt : window < 2 * 2 ^ (k + 1) := by omega
+  simp only [and_hi_ne_zero rfl hlt]
+  have hmask : ∀ x, x &&& (2 ^ (k + 1) - 1) = x % 2 ^ (k + 1) := fun x =>
+    Nat.and_two_pow_sub_one_eq_mod x (k + 1)
+  by_cases hhi : 2 ^ (k + 1) ≤ window
+  · rw [if_pos hhi]
+    have hwm : window % 2 ^ (k + 1) = window - 2 ^ (k + 1) := by
+      rw [Nat.mod_eq_sub_mod hhi, Nat.mod_eq_of_lt (by omega)]
+    by_cases hsuf : i ≥ alen
+    · rw [if_pos hsuf]
+      simp only [hmask, hwm]
+      have hlt2 : window - 2 ^ (k + 1) < 2 ^ (k + 1) := by omega
+      have hd0 : (window - 2 ^ (k + 1)) / 2 ^ (k + 1) = 0 := Nat.div_eq_of_lt hlt2
+      refine ⟨by omega, by omega, by rw [hd0]; simp, ?_⟩
+      have : (window - 2 ^ (k + 1)) % 2 = 1 := by omega
+      exact_mod_cast this
+    · rw [if_neg hsuf]
+      -- magnitude = 2^w - window (as in nafDigit_spec)
+      have hs := nafDigit_spec W k alen i window hW hwin
+      unfold wwNAFDigit at hs
+      simp only [hhalf, if_pos hodd, and_hi_ne_zero rfl hlt, if_pos hhi, if_neg hsuf, hmask] at hs
+      obtain ⟨s1, _, _, _, _, _⟩ := hs
+      simp only [hmask]
+      generalize hmag : wneg W window % 2 ^ (k + 1) = mag at *
+      have hmlt : mag < 2 ^ (k + 1) := by rw [← hmag]; exact Nat.mod_lt _ (by omega)
+      have hmval : mag = 2 ^ (k + 2) - window := by
+        have : (window : ℤ) = -(mag : ℤ) + ((2 ^ (k + 2) : Nat) : ℤ) := s1
+        omega
+      rw [xor_hi hmlt]
+      have hd1 : (mag + 2 ^ (k + 1)) / 2 ^ (k + 1) = 1 := by
+        rw [Nat.add_div_right _ (by omega), Nat.div_eq_of_lt hmlt]
+      have hm1 : (mag + 2 ^ (k + 1)) % 2 ^ (k + 1) = mag := by
+        rw [Nat.add_mod_right, Nat.mod_eq_of_lt hmlt]
+      refine ⟨by omega, by omega, by rw [hd1, hm1]; simp, ?_⟩
+      have : mag % 2 = 1 := by omega
+      have h2 : ((mag : ℤ)) % 2 = 1 := by exact_mod_cast this
+      omega
+  · rw [if_neg hhi]
+    have hd0 : window / 2 ^ (k + 1) = 0 := Nat.div_eq_of_lt (by omega)
+    dsimp only
+    refine ⟨by omega, hodd, by rw [hd0]; simp, by exact_mod_cast hodd⟩
+
+theorem nafDecode_zero (w s naf : Nat) : nafDecode w (s + 1) (naf <<< 1) = 0 :: nafDecode w s naf := by
+  rw [Nat.shiftLeft_eq, Nat.pow_one]
+  conv_lhs => unfold nafDecode
+  rw [if_pos (by omega), Nat.mul_div_cancel _ (by omega)]
+
+theorem nafDecode_sym (w s naf code : Nat) (hw : 0 < w) (hc : code < 2 ^ w) (hodd : code % 2 = 1) :
+    nafDecode w (s + 1) ((naf <<< w) ||| code) = nafSym w code :: nafDecode w s naf := by
+  rw [← Nat.shiftLeft_add_eq_or_of_lt hc, Nat.shiftLeft_eq]
+  obtain ⟨j, rfl⟩ : ∃ j, w = j + 1 := ⟨w - 1, by omega⟩
+  have hp : 2 ^ (j + 1) = 2 * 2 ^ j := by rw [Nat.pow_succ, Nat.mul_comm]
+  have hodd2 : (naf * 2 ^ (j + 1) + code) % 2 = 1 := by
+    have : naf * 2 ^ (j + 1) = 2 * (naf * 2 ^ j) := by rw [hp]; ring
+    omega
+  conv_lhs => unfold nafDecode
+  rw [if_neg (by omega)]
+  have hm : (naf * 2 ^ (j + 1) + code) % 2 ^ (j + 1) = code := by
+    rw [Nat.mul_comm, Nat.mul_add_mod, Nat.mod_eq_of_lt hc]
+  have hd : (naf * 2 ^ (j + 1) + code) / 2 ^ (j + 1) = naf := by
+    rw [Nat.mul_comm, Nat.mul_add_div (by omega), Nat.div_eq_of_lt hc, Nat.add_zero]
+  simp only [hm, hd]
+  rfl
+
+/-- loop invariant for the code word: decoding `size` symbols gives the digits, last first -/
+theorem nafLoop_decode (W k a alen : Nat) (hW : k + 2 < W) :
+    ∀ (f i window : Nat) (digs : List Int) (naf size : Nat), window ≤ 2 ^ (k + 2) →
+      size = digs.length → nafDecode (k + 2) size naf = digs.reverse →
+      nafDecode (k + 2) (wwNAFLoop W (k + 2) a alen f i window digs naf size).2.2
+          (wwNAFLoop W (k + 2) a alen f i window digs naf size).2.1
+        = (wwNAFLoop W (k + 2) a alen f i window digs naf size).1.reverse := by
+  intro f
+  induction f with
+  | zero => intro i window digs naf size _ _ h; simpa [wwNAFLoop] using h
+  | succ f ih =>
+    intro i window digs naf size hwin hsize hdec
+    unfold wwNAFLoop
+    by_cases hexit : window = 0 ∧ ¬ i < alen
+    · rw [if_pos hexit]; exact hdec
+    · rw [if_neg hexit]
+      obtain ⟨_, s2, s3, _, s5, _⟩ := nafDigit_spec W k alen i window hW hwin
+      have hpow : 2 ^ (k + 2) = 2 * 2 ^ (k + 1) := by rw [Nat.pow_succ, Nat.mul_comm]
+      have hb1 : a / 2 ^ i % 2 ≤ 1 := by omega
+      have e := mul01 (2 ^ (k + 1)) hb1
+      simp only []
+      apply ih
+      · have hhalf : 2 ^ (k + 2) / 2 = 2 ^ (k + 1) := by omega
+        rw [hhalf]
+        split_ifs <;> split_ifs at e <;> omega
+      · rw [List.length_append, List.length_singleton, hsize]
+      · rw [List.reverse_append, List.reverse_singleton, List.singleton_append]
+        by_cases hodd : window % 2 = 1
+        · obtain ⟨c1, c2, c3, _⟩ := nafDigit_code W k alen i window hW hwin hodd
+          rw [if_pos hodd, nafDecode_sym _ _ _ _ (by omega) c1 c2, c3, hdec]
+        · rw [if_neg hodd, nafDecode_zero, s5 (by omega), hdec]
+
+
+/-- loop invariants for the length bound and the non-zero top digit -/
+theorem nafLoop_shape (W k a alen : Nat) (hW : k + 2 < W) (halen : a < 2 ^ alen)
+    (hpos : 0 < alen) (htop : a / 2 ^ (alen - 1) % 2 = 1) :
+    ∀ (f i window : Nat) (digs : List Int) (naf size : Nat), window ≤ 2 ^ (k + 2) →
+      size + (k + 2) = i → size = digs.length →
+      (alen ≤ i → window * 2 ^ (i - alen) ≤ 2 ^ (k + 2)) →
+      i ≤ alen + (k + 2) + 1 →
+      ((window = 0 ∧ ¬ i < alen) → ∃ d, digs.getLast? = some d ∧ d ≠ 0) →
+      (if i < alen then (alen - i) + 2 ^ (k + 2) + 1 else window) < f →
+      (wwNAFLoop W (k + 2) a alen f i window digs naf size).2.2 ≤ alen + 1
+      ∧ ∃ d, (wwNAFLoop W (k + 2) a alen f i window digs naf size).1.getLast? = some d ∧ d ≠ 0 := by
+  intro f
+  induction f with
+  | zero => intro i window digs naf size _ _ _ _ _ _ h; exact (Nat.not_lt_zero _ h).elim
+  | succ f ih =>
+    intro i window digs naf size hwin hlen hsize hJ hK hP hf
+    unfold wwNAFLoop
+    by_cases hexit : window = 0 ∧ ¬ i < alen
+    · rw [if_pos hexit]
+      exact ⟨by dsimp only; omega, hP hexit⟩
+    · rw [if_neg hexit]
+      obtain ⟨s1, s2, s3, s4, s5, s6⟩ := nafDigit_spec W k alen i window hW hwin
+      have hcode := nafDigit_code W k alen i window hW hwin
+      generalize wwNAFDigit W (k + 2) alen i window = r at *
+      have hpow : 2 ^ (k + 2) = 2 * 2 ^ (k + 1) := by rw [Nat.pow_succ, Nat.mul_comm]
+      have hhalf : 2 ^ (k + 2) / 2 = 2 ^ (k + 1) := by omega
+      have hq0 : ¬ i < alen → a / 2 ^ i = 0 := fun h => by
+        apply Nat.div_eq_of_lt
+        exact Nat.lt_of_lt_of_le halen (Nat.pow_le_pow_right (by omega) (by omega))
+      have hbit : (if i < alen then 2 ^ (k + 2) / 2 * (a / 2 ^ i % 2) else 0)
+          = 2 ^ (k + 1) * (a / 2 ^ i % 2) := by
+        by_cases h : i < alen
+        · rw [if_pos h, hhalf]
+        · rw [if_neg h, hq0 h]; simp
+      have hb1 : a / 2 ^ i % 2 ≤ 1 := by omega
+      have e := mul01 (2 ^ (k + 1)) hb1
+      simp only []
+      rw [hbit]
+      -- i ≤ alen + w in a running iteration
+      have hile : i ≤ alen + (k + 2) := by
+        by_cases h : i < alen
+        · omega
+        · have hw1 : 1 ≤ window := by
+            rcases Nat.eq_zero_or_pos window with h0 | h0
+            · exact absurd ⟨h0, h⟩ hexit
+            · exact h0
+          have hj := hJ (by omega)
+          have h2 : 1 * 2 ^ (i - alen) ≤ window * 2 ^ (i - alen) := Nat.mul_le_mul_right _ hw1
+          have h3 : 2 ^ (i - alen) ≤ 2 ^ (k + 2) := by omega
+          have := (Nat.pow_le_pow_iff_right (by omega : 1 < 2)).mp h3
+          omega
+      apply ih
+      · split_ifs at e <;> omega
+      · omega
+      · rw [List.length_append, List.length_singleton, hsize]
+      · -- J
+        intro hge
+        by_cases h : i < alen
+        · have : i + 1 - alen = 0 := by omega
+          rw [this, Nat.pow_zero, Nat.mul_one]
+          split_ifs at e <;> omega
+        · rw [hq0 h] at e ⊢
+          have hj := hJ (by omega)
+          have hwle := (s6 (by omega)).2
+          have hexp : i + 1 - alen = (i - alen) + 1 := by omega
+          rw [hexp]
+          simp only [Nat.zero_mod, Nat.mul_zero, Nat.add_zero]
+          have h1 : r.2.2 / 2 * (2 ^ (i - alen) * 2) ≤ r.2.2 * 2 ^ (i - alen) := by
+            have : r.2.2 / 2 * 2 ≤ r.2.2 := Nat.div_mul_le_self _ _
+            calc r.2.2 / 2 * (2 ^ (i - alen) * 2) = (r.2.2 / 2 * 2) * 2 ^ (i - alen) := by ring
+              _ ≤ r.2.2 * 2 ^ (i - alen) := Nat.mul_le_mul_right _ this
+          have h2 : r.2.2 * 2 ^ (i - alen) ≤ window * 2 ^ (i - alen) := Nat.mul_le_mul_right _ hwle
+          have hp2 : 2 ^ (i - alen + 1) = 2 ^ (i - alen) * 2 := by rw [Nat.pow_succ]
+          rw [hp2]
+          omega
+      · omega
+      · -- P
+        rintro ⟨hw0, hi1⟩
+        refine ⟨r.1, by simp, ?_⟩
+        intro hd0
+        have hev : window % 2 = 0 := by
+          by_contra hodd
+          have := (hcode (by omega)).2.2.2
+          rw [hd0] at this
+          omega
+        have hwin2 : r.2.2 = window := by
+          rw [hd0] at s1; omega
+        rw [hwin2] at hw0
+        have hwz : window = 0 := by omega
+        have hlt : i < alen := by
+          by_contra h; exact hexit ⟨hwz, h⟩
+        have hi : i = alen - 1 := by omega
+        rw [hi, htop] at hw0
+        have := Nat.two_pow_pos (k + 1)
+        omega
+      · -- measure
+        by_cases h : i < alen
+        · rw [if_pos h] at hf
+          by_cases h2 : i + 1 < alen
+          · rw [if_pos h2]; omega
+          · rw [if_neg h2]; split_ifs at e <;> omega
+        · rw [if_neg h] at hf
+          rw [if_neg (by omega)]
+          rw [hq0 h] at e ⊢
+          have := (s6 (by omega)).2
+          have hwpos : 0 < window := by
+            rcases Nat.eq_zero_or_pos window with h0 | h0
+            · exact absurd ⟨h0, h⟩ hexit
+            · exact h0
+          omega
+
+
+/-! ### wwNAF: non-adjacency -/
+
+/-- scanning state: number of positions since the last non-zero digit (none: no non-zero digit yet) -/
+def gapState : Option Nat → List Int → Option Nat
+  | g, [] => g
+  | g, d :: ds => if d = 0 then gapState (g.map (· + 1)) ds else gapState (some 1) ds
+
+/-- every non-zero digit is at least w positions after the previous non-zero digit -/
+def nafGapStrict (w : Nat) : Option Nat → List Int → Prop
+  | _, [] => True
+  | g, d :: ds =>
+    if d = 0 then nafGapStrict w (g.map (· + 1)) ds
+    else (match g with | none => True | some t => w ≤ t) ∧ nafGapStrict w (some 1) ds
+
+/-- what wwNAF guarantees: consecutive non-zero digits are at least w positions apart, except
+    that the LAST digit may be only w - 1 positions after the previous non-zero digit -/
+def nafGapOK (w : Nat) : Option Nat → List Int → Prop
+  | _, [] => True
+  | g, d :: ds =>
+    if d = 0 then nafGapOK w (g.map (· + 1)) ds
+    else (match g with | none => True | some t => w ≤ t ∨ (t + 1 = w ∧ ds = [])) ∧ nafGapOK w (some 1) ds
+
+theorem gapState_snoc (g : Option Nat) (ds : List Int) (d : Int) :
+    gapState g (ds ++ [d]) = if d = 0 then (gapState g ds).map (· + 1) else some 1 := by
+  induction ds generalizing g with
+  | nil => simp [gapState]
+  | cons x xs ih => simp only [List.cons_append, gapState]; split <;> exact ih _
+
+theorem nafGapStrict_snoc (w : Nat) (g : Option Nat) (ds : List Int) (d : Int) :
+    nafGapStrict w g (ds ++ [d]) ↔ nafGapStrict w g ds
+      ∧ (d = 0 ∨ match gapState g ds with | none => True | some t => w ≤ t) := by
+  induction ds generalizing g with
+  | nil =>
+    simp only [List.nil_append, nafGapStrict, gapState]
+    by_cases h : d = 0 <;> simp [h]
+  | cons x xs ih =>
+    simp only [List.cons_append, nafGapStrict, gapState]
+    split
+    · exact ih _
+    · rw [ih]; tauto
+
+theorem nafGapOK_snoc (w : Nat) (g : Option Nat) (ds : List Int) (d : Int)
+    (hs : nafGapStrict w g ds)
+    (hd : d = 0 ∨ match gapState g ds with | none => True | some t => w ≤ t ∨ t + 1 = w) :
+    nafGapOK w g (ds ++ [d]) := by
+  induction ds generalizing g with
+  | nil =>
+    simp only [List.nil_append, nafGapOK, gapState] at *
+    by_cases h : d = 0
+    · simp [h]
+    · simp only [h, false_or, if_false, and_true] at *
+      cases g with
+      | none => trivial
+      | some t => simpa using hd
+  | cons x xs ih =>
+    simp only [List.cons_append, nafGapOK, nafGapStrict, gapState] at *
+    split
+    · rename_i hx; rw [if_pos hx] at hs hd; exact ih _ hs hd
+    · rename_i hx
+      rw [if_neg hx] at hs hd
+      refine ⟨?_, ih _ hs.2 hd⟩
+      cases g with
+      | none => trivial
+      | some t => exact Or.inl hs.1
+
+theorem nafGapOK_of_strict (w : Nat) (g : Option Nat) (ds : List Int) (hs : nafGapStrict w g ds) :
+    nafGapOK w g ds := by
+  induction ds generalizing g with
+  | nil => trivial
+  | cons x xs ih =>
+    simp only [nafGapOK, nafGapStrict] at *
+    split
+    · rename_i hx; rw [if_pos hx] at hs; exact ih _ hs
+    · rename_i hx
+      rw [if_neg hx] at hs
+      refine ⟨?_, ih _ hs.2⟩
+      cases g with
+      | none => trivial
+      | some t => exact Or.inl hs.1
+
+
+theorem odd_pow_dvd {j s x : Nat} (hx : x % 2 = 1) (h : 2 ^ j ∣ x * 2 ^ s) : j ≤ s := by
+  have hc : Nat.Coprime (2 ^ j) x := Nat.Coprime.pow_left j (Gcd.coprime_two_of_odd hx)
+  have := Nat.Coprime.dvd_of_dvd_mul_left hc h
+  exact (Nat.pow_dvd_pow_iff_le_right (by omega)).mp this
+
+/-- the window left by a non-zero digit -/
+theorem nafDigit_win (W k alen i window : Nat) (hwin : window ≤ 2 ^ (k + 2))
+    (hodd : window % 2 = 1) :
+    ((wwNAFDigit W (k + 2) alen i window).2.2 = 0
+      ∨ (wwNAFDigit W (k + 2) alen i window).2.2 = 2 ^ (k + 2)
+      ∨ ((wwNAFDigit W (k + 2) alen i window).2.2 = 2 ^ (k + 1) ∧ alen ≤ i))
+    ∧ (window < 2 ^ (k + 1) → (wwNAFDigit W (k + 2) alen i window).2.2 = 0) := by
+  have hpow : 2 ^ (k + 2) = 2 * 2 ^ (k + 1) := by rw [Nat.pow_succ, Nat.mul_comm]
+  have hhalf : 2 ^ (k + 2) / 2 = 2 ^ (k + 1) := by omega
+  unfold wwNAFDigit
+  simp only [hhalf]
+  rw [if_pos hodd]
+  have hlt : window < 2 * 2 ^ (k + 1) := by omega
+  simp only [and_hi_ne_zero rfl hlt]
+  by_cases hhi : 2 ^ (k + 1) ≤ window
+  · rw [if_pos hhi]
+    by_cases hsuf : i ≥ alen
+    · rw [if_pos hsuf]; exact ⟨Or.inr (Or.inr ⟨rfl, hsuf⟩), fun h => by omega⟩
+    · rw [if_neg hsuf]; exact ⟨Or.inr (Or.inl rfl), fun h => by omega⟩
+  · rw [if_neg hhi]; exact ⟨Or.inl rfl, fun _ => rfl⟩
+
+theorem nafLoop_exit (W w a alen f i : Nat) (digs : List Int) (naf size : Nat) (hi : ¬ i < alen) :
+    wwNAFLoop W w a alen f i 0 digs naf size = (digs, naf, size) := by
+  cases f with
+  | zero => rfl
+  | succ f => unfold wwNAFLoop; rw [if_pos ⟨rfl, hi⟩]
+
+theorem nafLoop_gap (W k a alen : Nat) (hW : k + 2 < W) (halen : a < 2 ^ alen) :
+    ∀ (f i window : Nat) (digs : List Int) (naf size : Nat), window ≤ 2 ^ (k + 2) →
+      nafGapStrict (k + 2) none digs →
+      (match gapState none digs with
+        | none => True
+        | some t => 1 ≤ t ∧ ((2 ^ (k + 1) ∣ window * 2 ^ (t - 1))
+            ∨ (alen ≤ i ∧ 2 ^ k ∣ window * 2 ^ (t - 1) ∧ window ≤ 2 ^ k))) →
+      nafGapOK (k + 2) none (wwNAFLoop W (k + 2) a alen f i window digs naf size).1 := by
+  intro f
+  induction f with
+  | zero => intro i window digs naf size _ hs _; exact nafGapOK_of_strict _ _ _ hs
+  | succ f ih =>
+    intro i window digs naf size hwin hs hmode
+    unfold wwNAFLoop
+    by_cases hexit : window = 0 ∧ ¬ i < alen
+    · rw [if_pos hexit]; exact nafGapOK_of_strict _ _ _ hs
+    · rw [if_neg hexit]
+      obtain ⟨s1, s2, s3, _, s5, _⟩ := nafDigit_spec W k alen i window hW hwin
+      have hcode := nafDigit_code W k alen i window hW hwin
+      have hwinr := nafDigit_win W k alen i window hwin
+      generalize wwNAFDigit W (k + 2) alen i window = r at *
+      have hpow : 2 ^ (k + 2) = 2 * 2 ^ (k + 1) := by rw [Nat.pow_succ, Nat.mul_comm]
+      have hpow1 : 2 ^ (k + 1) = 2 * 2 ^ k := by rw [Nat.pow_succ, Nat.mul_comm]
+      have hhalf : 2 ^ (k + 2) / 2 = 2 ^ (k + 1) := by omega
+      have hq0 : ¬ i < alen → a / 2 ^ i = 0 := fun h => by
+        apply Nat.div_eq_of_lt
+        exact Nat.lt_of_lt_of_le halen (Nat.pow_le_pow_right (by omega) (by omega))
+      -- the entering bit is a multiple of H, and 0 once i ≥ alen
+      obtain ⟨X, hX, hX0⟩ : ∃ X, (if i < alen then 2 ^ (k + 2) / 2 * (a / 2 ^ i % 2) else 0)
+          = 2 ^ (k + 1) * X ∧ (alen ≤ i → X = 0) := by
+        by_cases h : i < alen
+        · exact ⟨a / 2 ^ i % 2, by rw [if_pos h, hhalf], fun h' => by omega⟩
+        · exact ⟨0, by rw [if_neg h]; simp, fun _ => rfl⟩
+      have hXle : 2 ^ (k + 1) * X ≤ 2 ^ (k + 1) := by
+        rw [← hX]
+        split_ifs
+        · rw [hhalf]
+          have hb : a / 2 ^ i % 2 ≤ 1 := by omega
+          calc 2 ^ (k + 1) * (a / 2 ^ i % 2) ≤ 2 ^ (k + 1) * 1 := Nat.mul_le_mul_left _ hb
+            _ = 2 ^ (k + 1) := Nat.mul_one _
+        · omega
+      simp only []
+      rw [hX]
+      by_cases hodd : window % 2 = 1
+      · -- non-zero digit
+        obtain ⟨_, _, _, hdodd⟩ := hcode hodd
+        obtain ⟨hw3, hwsmall⟩ := hwinr hodd
+        have hdne : r.1 ≠ 0 := by intro h; rw [h] at hdodd; omega
+        -- the gap before this digit
+        have hgap : match gapState none digs with
+            | none => True
+            | some t => (k + 2 ≤ t) ∨ (t + 1 = k + 2 ∧ alen ≤ i ∧ window ≤ 2 ^ k) := by
+          cases hg : gapState none digs with
+          | none => trivial
+          | some t =>
+            rw [hg] at hmode
+            obtain ⟨ht1, hm | ⟨hm1, hm2, hm3⟩⟩ := hmode
+            · have := odd_pow_dvd hodd hm; left; omega
+            · have := odd_pow_dvd hodd hm2
+              by_cases h : k + 2 ≤ t
+              · left; exact h
+              · right; exact ⟨by omega, hm1, hm3⟩
+        -- suffix end: the loop stops right after this digit
+        by_cases hfin : ∃ t, gapState none digs = some t ∧ ¬ (k + 2 ≤ t)
+        · obtain ⟨t, hg, hnt⟩ := hfin
+          rw [hg] at hgap
+          obtain h | ⟨h1, h2, h3⟩ := hgap
+          · exact absurd h hnt
+          · have hw0 : r.2.2 = 0 := hwsmall (by omega)
+            rw [hw0, hX0 h2]
+            simp only [Nat.zero_div, Nat.mul_zero, Nat.add_zero]
+            rw [nafLoop_exit _ _ _ _ _ _ _ _ _ (by omega)]
+            apply nafGapOK_snoc _ _ _ _ hs
+            right; rw [hg]; right; exact h1
+        · -- normal: strict gap, continue
+          have hstrict : nafGapStrict (k + 2) none (digs ++ [r.1]) := by
+            rw [nafGapStrict_snoc]
+            refine ⟨hs, Or.inr ?_⟩
+            cases hg : gapState none digs with
+            | none => trivial
+            | some t =>
+              by_contra hnt
+              exact hfin ⟨t, hg, hnt⟩
+          apply ih _ _ _ _ _ (by omega) hstrict
+          rw [gapState_snoc, if_neg hdne]
+          refine ⟨le_refl _, ?_⟩
+          simp only [Nat.sub_self, Nat.pow_zero, Nat.mul_one]
+          rcases hw3 with h | h | ⟨h, hsuf⟩
+          · left; rw [h]; simp
+          · left; rw [h, hhalf]
+            exact ⟨1 + X, by ring⟩
+          · right
+            rw [h, hX0 hsuf]
+            have : 2 ^ (k + 1) / 2 = 2 ^ k := by omega
+            simp only [Nat.mul_zero, Nat.add_zero, this]
+            exact ⟨by omega, dvd_refl _, le_refl _⟩
+      · -- zero digit
+        have hd0 := s5 (by omega)
+        have hwr : r.2.2 = window := by rw [hd0] at s1; omega
+        have hstrict : nafGapStrict (k + 2) none (digs ++ [r.1]) := by
+          rw [nafGapStrict_snoc]; exact ⟨hs, Or.inl hd0⟩
+        apply ih _ _ _ _ _ (by rw [hwr]; omega) hstrict
+        rw [gapState_snoc, if_pos hd0, hwr]
+        cases hg : gapState none digs with
+        | none => trivial
+        | some t =>
+          rw [hg] at hmode
+          obtain ⟨ht1, hm⟩ := hmode
+          simp only [Option.map_some, Nat.add_sub_cancel]
+          obtain ⟨wh, rfl⟩ : ∃ wh, window = 2 * wh := ⟨window / 2, by omega⟩
+          have hwh : 2 * wh / 2 = wh := by omega
+          obtain ⟨t', rfl⟩ : ∃ t', t = t' + 1 := ⟨t - 1, by omega⟩
+          simp only [Nat.add_sub_cancel] at hm
+          rw [hwh]
+          have e1 : (wh + 2 ^ (k + 1) * X) * 2 ^ (t' + 1)
+              = 2 * wh * 2 ^ t' + 2 ^ (k + 1) * (X * 2 ^ (t' + 1)) := by
+            rw [Nat.pow_succ]; ring
+          refine ⟨by omega, ?_⟩
+          rcases hm with hm | ⟨hm1, hm2, hm3⟩
+          · left
+            rw [e1]
+            exact Nat.dvd_add hm (Nat.dvd_mul_right _ _)
+          · right
+            rw [hX0 hm1]
+            simp only [Nat.mul_zero, Nat.add_zero]
+            refine ⟨by omega, ?_, by omega⟩
+            have : wh * 2 ^ (t' + 1) = 2 * wh * 2 ^ t' := by rw [Nat.pow_succ]; ring
+            rw [this]; exact hm2
+
 end Bee2V.C05.Misc
